@@ -1548,6 +1548,9 @@ class _SessionTrackingClient:
         token = hdrs.get(SESSION_HEADER) or hdrs.get(SESSION_HEADER.lower())
         if token:
             self._view._token = token
+            # A session is live (again): an earlier close in this block must
+            # not make the exit logic skip releasing the one opened after it.
+            self._view._closed = False
         # Capture VGI-Echo-* on every response (cheap; only emitted on session
         # open, so subsequent responses are no-ops). httpx2 headers are
         # case-insensitive but _SyncTestResponse stores lowercase — iterate
